@@ -34,6 +34,7 @@ CanSend(s, c) ==
      \/ \* pipelined: handled while the previous command's handler has not answered yet
         Pipe /\ c.v \in OvertakingVerbs /\ ss[s].h.v \in OvertakenVerbs /\ ss[s].h2 = NoH /\ ss[s].ab = ""
      \/ Pipe /\ c.v = "user" /\ ss[s].h.v = "pass" /\ ss[s].h2 = NoH /\ ss[s].ab = ""
+     \/ Pipe /\ c.v = "user" /\ ss[s].h.v \in OvertakenVerbs /\ ss[s].h2 = NoH /\ ss[s].ab = ""
      \/ Pipe /\ c.v \in {"user", "pass", "pwd", "type", "syst"} /\ ss[s].h.v = "user" /\ ss[s].h2 = NoH /\ ss[s].ab = ""
      \/ Pipe /\ c.v \in {"pasv", "epsv"} /\ ss[s].h.v \in {"pasv", "epsv"} /\ ss[s].h2 = NoH /\ ss[s].ab = ""
 
